@@ -292,6 +292,8 @@ structure Request where
   opselOk : Bool
   /-- `coerce_variable_values` succeeds -/
   varsOk : Bool
+  /-- the selected operation is a subscription: `execute` raises InvalidOperationError -/
+  subscriptionOp : Bool
   /-- mutation: root fields run serially -/
   serial : Bool
   /-- `executor_cls=BlockingExecutor` -/
@@ -313,6 +315,7 @@ def execBody (cfg : Cfg) (r : Request) : List Ev :=
 def execute (cfg : Cfg) (r : Request) : Option (List Ev) :=
   if !r.opselOk then none            -- get_operation_with_type raises InvalidOperationError
   else if !r.varsOk then none        -- coerce_variable_values raises VariablesCoercionError
+  else if r.subscriptionOp then none -- "`execute` does not support subscriptions": InvalidOperationError (an ExecutionError)
   else some (stageStart .execution ++ execBody cfg r ++ stageEnd .execution)     -- _on_finish: on_execution_end
 
 /-- `process_graphql_query`. `abortInsideExcept = true` is the tree before the proposed fix of
